@@ -47,37 +47,72 @@ Theorem verify_v1_iff_policy : forall (PK SIG DATA : Type) (sig_valid : PK -> DA
 Proof. exact verify_v1_iff_l. Qed.
 Print Assumptions verify_v1_iff_policy.
 
-(** FINDING (KF-C06-1): the property demands that a sponsored transaction verifies only if the sponsor
-    signs.  [AccountTransactionV1::verify_transaction_signature] never looks at [header.sponsor]: a
-    transaction whose header names a sponsor, carrying no sponsor signature, verifies with the sender's
-    signature alone - against ANY sponsor access structure. *)
-Theorem sponsored_requires_sponsor_signature_refuted :
+(** Transaction-level v1 verification ([AccountTransactionV1::verify_transaction_signature], with the
+    guard of /repo commit 12eb729ed): acceptance is the sender policy, AND the sponsor policy for the
+    sponsor signature if one is supplied, AND a sponsor signature is supplied whenever the header names
+    a sponsor.  No side condition on the shape of the transaction. *)
+Theorem verify_tx_v1_iff_policy : forall (PK SIG DATA : Type) (sig_valid : PK -> DATA -> SIG -> bool)
+    (hs : option N) (sender sponsor : access PK) (d : DATA) (ssig : sig_map SIG) (psig : option (sig_map SIG)),
+  verify_tx_v1 sig_valid hs sender sponsor d ssig psig = true <->
+  (policy PK SIG DATA sig_valid sender d ssig /\
+   (hs <> None -> psig <> None) /\
+   forall sg, psig = Some sg -> policy PK SIG DATA sig_valid sponsor d sg).
+Proof.
+  intros PK SIG DATA sv hs sender sponsor d ssig psig. unfold verify_tx_v1.
+  destruct hs as [a|], psig as [sg|]; try rewrite verify_v1_iff_l.
+  - split.
+    + intros [H1 H2]. split; [exact H1|]. split; [discriminate|exact H2].
+    + intros [H1 [_ H2]]. split; assumption.
+  - split; [discriminate|]. intros [_ [H _]]. exfalso. apply H; [discriminate|reflexivity].
+  - split.
+    + intros [H1 H2]. split; [exact H1|]. split; [intros C; exfalso; apply C; reflexivity|exact H2].
+    + intros [H1 [_ H2]]. split; assumption.
+  - split.
+    + intros [H1 H2]. split; [exact H1|]. split; [intros C; exfalso; apply C; reflexivity|exact H2].
+    + intros [H1 [_ H2]]. split; assumption.
+Qed.
+Print Assumptions verify_tx_v1_iff_policy.
+
+(** the property's demand for sponsored transactions: a transaction that names a sponsor verifies only
+    if the sponsor signed and the sponsor's signature map satisfies the sponsor's threshold policy *)
+Theorem sponsored_requires_sponsor_policy : forall (PK SIG DATA : Type) (sig_valid : PK -> DATA -> SIG -> bool)
+    (hs : option N) (sender sponsor : access PK) (d : DATA) (ssig : sig_map SIG) (psig : option (sig_map SIG)),
+  hs <> None -> verify_tx_v1 sig_valid hs sender sponsor d ssig psig = true ->
+  policy PK SIG DATA sig_valid sender d ssig /\ exists sg, psig = Some sg /\ policy PK SIG DATA sig_valid sponsor d sg.
+Proof.
+  intros PK SIG DATA sv hs sender sponsor d ssig psig Hn V.
+  apply verify_tx_v1_iff_policy in V as [H1 [H2 H3]]. split; [exact H1|].
+  destruct psig as [sg|]; [exists sg; auto|exfalso; apply (H2 Hn); reflexivity].
+Qed.
+Print Assumptions sponsored_requires_sponsor_policy.
+
+(** REGRESSION WITNESS (was finding KF-C06-1, repaired by /repo commit 12eb729ed): the function WITHOUT
+    the guard ([verify_tx_v1_prefix], the code before the fix) accepts a transaction whose header names
+    a sponsor, carrying no sponsor signature, with the sender's signature alone - against ANY sponsor
+    access structure; the repaired function rejects the same input. *)
+Theorem prefix_verify_tx_v1_refuted :
   exists (header_sponsor : option N) (sender sponsor : access unit) (ssig : sig_map bool) (psig : option (sig_map bool)),
     header_sponsor <> None /\ psig = None /\ as_creds sponsor = [] /\
-    verify_tx_v1 (fun _ _ (b : bool) => b) header_sponsor sender sponsor tt ssig psig = true.
+    verify_tx_v1_prefix (fun _ _ (b : bool) => b) header_sponsor sender sponsor tt ssig psig = true /\
+    verify_tx_v1 (fun _ _ (b : bool) => b) header_sponsor sender sponsor tt ssig psig = false.
 Proof.
   exists (Some 7), (mkAccess [(0, mkCred [(0, tt)] 1)] 1), (mkAccess [] 1), [(0, [(0, true)])], None.
-  split; [discriminate|]. split; [reflexivity|]. split; [reflexivity|]. vm_compute. reflexivity.
+  split; [discriminate|]. split; [reflexivity|]. split; [reflexivity|]. split; vm_compute; reflexivity.
 Qed.
-Print Assumptions sponsored_requires_sponsor_signature_refuted.
+Print Assumptions prefix_verify_tx_v1_refuted.
 
-(** the guarded positive statement: when a sponsor signature is supplied exactly when the header names a
-    sponsor, acceptance is the conjunction of both policies *)
-Theorem verify_tx_v1_iff_policy_guarded : forall (PK SIG DATA : Type) (sig_valid : PK -> DATA -> SIG -> bool)
-    (hs : option N) (sender sponsor : access PK) (d : DATA) (ssig : sig_map SIG) (psig : option (sig_map SIG)),
-  (hs = None <-> psig = None) ->
-  (verify_tx_v1 sig_valid hs sender sponsor d ssig psig = true <->
-   (policy PK SIG DATA sig_valid sender d ssig /\
-    (hs <> None -> exists sg, psig = Some sg /\ policy PK SIG DATA sig_valid sponsor d sg))).
-Proof.
-  intros PK SIG DATA sv hs sender sponsor d ssig psig G. unfold verify_tx_v1. rewrite verify_v1_iff_l.
-  split; intros [H1 H2]; split; try exact H1.
-  - intros Hn. destruct psig as [sg|]; [exists sg; auto|]. exfalso; apply Hn; apply G; reflexivity.
-  - intros sg Heq. destruct H2 as [sg' [E P]].
-    + intros Hn. apply G in Hn. congruence.
-    + congruence.
-Qed.
-Print Assumptions verify_tx_v1_iff_policy_guarded.
+(** both shapes are inhabited: named sponsor with a sufficient sponsor signature accepts; an UNNAMED
+    sponsor with a sponsor signature is decided by the sponsor policy against the caller's sponsor keys *)
+Example verify_tx_v1_nonvacuous :
+  let a := mkAccess [(0, mkCred [(0, tt)] 1)] 1 in
+  verify_tx_v1_bits true a a [(0, [(0, true)])] (Some [(0, [(0, true)])]) = true /\
+  verify_tx_v1_bits true a a [(0, [(0, true)])] None = false /\
+  verify_tx_v1_bits true a a [(0, [(0, true)])] (Some [(0, [(0, false)])]) = false /\
+  verify_tx_v1_bits false a a [(0, [(0, true)])] None = true /\
+  verify_tx_v1_bits false a a [(0, [(0, true)])] (Some [(0, [(0, true)])]) = true /\
+  verify_tx_v1_bits false a a [(0, [(0, true)])] (Some [(0, [(0, false)])]) = false.
+Proof. vm_compute. repeat split. Qed.
+Print Assumptions verify_tx_v1_nonvacuous.
 
 (** ------------------------------------------------------------------ completeness *)
 Theorem sign_sufficient_verifies : forall (PK SIG DATA : Type) (sig_valid : PK -> DATA -> SIG -> bool)
